@@ -3,11 +3,17 @@
 package tracker
 
 import (
+	"bytes"
 	"context"
 	"net"
 	"net/netip"
+	nurl "net/url"
 	"time"
 )
+
+func vDialDgram(d *net.Dialer, ctx context.Context, network, address string) (net.Conn, error) {
+	return &vDgramConn{}, nil
+}
 
 // a datagram connection whose every Read delivers an arbitrary datagram (length 0..48,
 // arbitrary bytes) or fails, and whose Write may fail
@@ -167,5 +173,56 @@ func H_C15_http_tail() {
 		vReach("v4-peer")
 		a := got[0].Addr().As4()
 		vAssert(a[0] == peers[0] && a[3] == peers[3] && got[0].Port() == uint16(peers[4])<<8|uint16(peers[5]), "compact IPv4 record decoded big-endian")
+	}
+}
+
+var vUDPReplies [][]byte
+var vUDPCalls int
+
+// vRequestReply stands in for udpRequestReply under H_C15_udp_tail (the exchange itself is
+// H_C15_udpRequestReply's subject): it hands back the next scripted datagram body.
+func vRequestReply(ctx context.Context, conn net.Conn, request []byte, min int, action uint32, tid uint32) (*bytes.Reader, error) {
+	if vUDPCalls >= len(vUDPReplies) {
+		return nil, ErrParse
+	}
+	b := vUDPReplies[vUDPCalls]
+	vUDPCalls++
+	if len(b) < min-8 {
+		return nil, ErrParse
+	}
+	return bytes.NewReader(b), nil
+}
+
+// H_C15_udp_tail: announceUDP with the two exchanges replaced by scripted replies: the connect
+// reply's body (8 bytes, any connection id) and an announce reply whose body after the
+// (action, transaction id) header is ANY 12..31 bytes: interval, leechers, seeders, then the peer
+// list - of any length, a whole number of 6-byte records or not: an error, or exactly the peers
+// encoded in the reply (one per complete record, decoded big-endian) - a truncated record is
+// never turned into a peer - and never a panic.
+func H_C15_udp_tail() {
+	body := vBytes("body", 31)
+	vAssume(len(body) >= 12)
+	cid := vBytes("cid", 8)
+	vAssume(len(cid) == 8)
+	vUDPReplies = [][]byte{cid, body}
+	vUDPCalls = 0
+	var got []netip.AddrPort
+	f := func(a netip.AddrPort) bool { got = append(got, a); return true }
+	iv, err := announceUDP(context.Background(), "udp4", f, &nurl.URL{Host: "tracker:6969"}, make([]byte, 20), make([]byte, 20), 50, 1000, 1, "") // a panic is the violation
+	n := (len(body) - 12) / 6
+	whole := (len(body)-12)%6 == 0
+	if err != nil {
+		vReach("error")
+		vAssert(len(got) <= n, "even on failure no more peers are learnt than the reply holds complete records")
+		return
+	}
+	vReach("ok")
+	vAssert(whole, "a reply that ends inside a peer record is an error")
+	vAssert(len(got) == n, "exactly the peers encoded in the reply are learnt")
+	vAssert(iv == time.Duration(uint32(body[0])<<24|uint32(body[1])<<16|uint32(body[2])<<8|uint32(body[3]))*time.Second, "the announced interval is returned")
+	if n > 0 {
+		vReach("peer")
+		a := got[0].Addr().As4()
+		vAssert(a[0] == body[12] && a[3] == body[15] && got[0].Port() == uint16(body[16])<<8|uint16(body[17]), "compact IPv4 record decoded big-endian")
 	}
 }
